@@ -4,7 +4,6 @@
 #include "h4v.h"
 #include "h4v_err.h"
 #include "h4v_hp.h"
-#include "hfiledd_dir_ghost.h"
 #include "hfiledd.c"
 
 H4V_DECL_ND(int32);
